@@ -806,7 +806,6 @@ func runDerive(o *out.Out, r *gen.Rand, c int) {
 	o.Mark(fmt.Sprintf("D/%d", n))
 }
 
-
 // ---------------------------------------------------------------- malformed / crafted proof stream
 
 func rlpStr(r *gen.Rand, b []byte) []byte {
